@@ -19,6 +19,18 @@ CHECKS = {
         note=('Deciding build: clang 14 -O1 -DNDEBUG + ASan/UBSan (asserts off as in the RelWithDebInfo baseline). Leaks are '
               'not checked. libxml2 itself is uninstrumented. Time-outs count only after three confirmations on CPU time.'),
     ),
+    'C02': dict(
+        engine='oracle-server + Hypothesis + depth-2 enumeration (harness/py/prop_C02.py, gen_expr.py)',
+        technique='property-based testing against a reference operator table: render(min parens / full parens) -> parse -> compare canonical trees; exhaustive depth-2 operator-pair enumeration; literal round-trip against correctly rounded conversion',
+        category='exploration',
+        text=('Abstract expression trees are rendered with minimal and with full parentheses, parsed by the library, and the '
+              'parsed tree (kinds, operand order, symbol binding, literal values bit for bit) is compared with the abstract tree. '
+              'All (parent form, slot, child form) triples are enumerated in every tier, deeper trees are drawn by Hypothesis, '
+              'literal boundary texts are checked against exact integer / correctly rounded double values.'),
+        design_ref='DESIGN.md 4/C02',
+        note=('Trusted: the reference operator table (gen_expr.py), Python float() as correctly rounded conversion, the oracle '
+              'server dump (public accessors only). Contexts: S_EXPRESSION (quick) plus query, update-list and initialiser contexts (thorough).'),
+    ),
     'C18': dict(
         engine='rapidcheck + exhaustive loops (harness/cpp/c18.cpp)',
         technique='exhaustive enumeration over int8_t + rapidcheck property-based testing over int32_t/double against set semantics in wide arithmetic',
